@@ -13,6 +13,7 @@
 import DateutilVerif.Proofs.RRuleStrMalformed
 import DateutilVerif.Proofs.RRuleStrOrder
 import DateutilVerif.Proofs.RRuleStrSet
+import DateutilVerif.Proofs.RRuleStrSpell
 
 namespace C13
 open RRuleStr
@@ -168,6 +169,16 @@ theorem str_roundtrip (x : StrIn) (hx : Printable x) (t : Nat × Nat × Nat × N
 theorem str_roundtrip_nostart (x : StrIn) (hx : Printable x) (ht : x.dtstart = none) :
     parseRfc (toStr x) {} = .ok (.rule (argsOf x) none) := parseRfc_toStr_none x hx ht
 
+/-- items 3, 5 and 6 together — "every spelling": take the parts of `str(rule)` in ANY order (`List.Perm`), join them with
+    `;`, write the text in ANY letter case: the RRULE value still parses to exactly the printed arguments.  (The parts of
+    `str(rule)` set pairwise different keywords: `partsOf_distinct`.) -/
+theorem str_roundtrip_any_order_any_case (x : StrIn) (hx : Printable x) (qs : List (List Char))
+    (hperm : (partsOf x).Perm qs) (txt : List Char) (hcase : upper txt = intercalate [';'] qs) :
+    parseRRuleLine (upper txt) = .ok (argsOf x) ∧
+    parseRfc txt {} = parseRfc (intercalate [';'] qs) {} := by
+  refine ⟨by rw [hcase]; exact parseRRuleLine_perm x hx qs hperm, ?_⟩
+  rw [← case_irrelevant txt, hcase]
+
 /-- a rule with most things in it: nth weekdays of both signs, negative list members, WKST, INTERVAL, UNTIL, year < 1000 -/
 def sample : StrIn :=
   { dtstart := some (999, 1, 2, 3, 4, 5), freq := 1, interval := 2, wkst := 6, count := none,
@@ -177,6 +188,9 @@ def sample : StrIn :=
 example : Printable sample := by
   constructor <;> first | decide | (intro l h; cases h; exact ⟨by decide, by decide⟩)
 example : (argsOf sample).byweekday = some [(0, some 1), (4, some (-2)), (6, none)] ∧ (argsOf sample).wkst = some 6 := by decide
+
+example : (partsOf sample).Perm (partsOf sample).reverse ∧ upper (lit "byeaster=0,-2") = lit "BYEASTER=0,-2" :=
+  ⟨(List.reverse_perm _).symm, by decide⟩
 
 /-! ## 7. sets, forceset, compatible -/
 
